@@ -57,7 +57,7 @@ def Ldb.frontierId (s : Ldb) : Id := frontierIdOf (fun k => edDecode (rget s.fro
 inductive Root where
   | mem                                  -- db.NewMemDB()
   | front (base : Raw)                   -- snapshot of the frontier key space
-  | hist (rb : Raw) (base : Raw)         -- rollback overlay + snapshot, iterated through skipDeleted
+  | hist (rb : Raw) (base : Raw)         -- rollback overlay over the frontier snapshot (merged, overlay first)
   deriving Repr
 
 /-- fold the undo patches of heights lo+1 … hi (ascending) into the overlay, never overriding -/
@@ -87,11 +87,12 @@ def Root.rawGet : Root → Bytes → Option Bytes
 
 def Root.get (r : Root) (k : Bytes) : Option Bytes := edDecode (r.rawGet k)
 
-/-- raw ordered scan through a root -/
+/-- raw ordered scan through a root (what the iterator UNDER the delete-enabled iterator yields: tombstones of the
+    overlay hide the entries of the snapshot here and are dropped, like all tombstones, by `edEntries` on top) -/
 def Root.rawScan : Root → Bytes → Raw
   | .mem, _ => []
   | .front base, p => rscan base p
-  | .hist rb base, p => skipDel (merge2 (rscan rb p) (rscan base p))
+  | .hist rb base, p => merge2 (rscan rb p) (rscan base p)
 
 /-- ldbManager.Add for a single-commit transaction. Returns the new state; the call reports success also when
     the parent is not the frontier (nothing is written then). `none` = error "can't find prev". -/
